@@ -481,3 +481,13 @@ M("C13-mrf-update-in-place", {"C13": "C13.R6"}, (_GL, "    updated_cluster = clu
 M("C13-clusters-appended", {"C13": "C13.R4"}, (_K, "    new_model.point_labels = new_labels\n", "    new_model.clusters.append(model_state.ClusterParameters.empty_cluster())\n    new_model.point_labels = new_labels\n"))
 M("C13-empty-model-k-plus-one", {"C13": "C13.R4"}, (_MS, "            for i in range(user_args.num_clusters)\n            ]", "            for i in range(user_args.num_clusters + 1)\n            ]"))
 M("C13-twin-copy-copy-labels", {"C13": None}, (_MS, "            point_labels=list(self._point_labels),", "            point_labels=self._point_labels[:],"))
+
+# ---------------------------------------------------------------- structural twins written for the robustness pass
+M("TWIN-rename-private-donor-helper", {"C08": None, "C20": None},
+  (_CMf, "def _find_point_donor(model: model_state.ModelState,", "def _select_donor(model: model_state.ModelState,"),
+  (_CMf, "        (donor_cluster_id, remaining_donors) = _find_point_donor(\n", "        (donor_cluster_id, remaining_donors) = _select_donor(\n"))
+M("TWIN-shifted-backward-sweep", {"C01": None, "C15": None, "C07": None},
+  (_K, "    for i in range(num_points-2, -1, -1):\n", "    for nxt in range(num_points-1, 0, -1):\n        i = nxt - 1\n"))
+M("TWIN-round-index-renamed", {"C09": None, "C14": None, "C20": None},
+  ("main_loop.py", "        for current_iteration in range(current_model_state.arguments.iteration_limit):\n            LOGGER.info(\"TICC: Beginning iteration %d\", current_iteration)\n\n            if current_iteration > 0:",
+   "        for round_index in range(current_model_state.arguments.iteration_limit):\n            LOGGER.info(\"TICC: Beginning iteration %d\", round_index)\n\n            if round_index >= 1:"))
